@@ -47,11 +47,23 @@ Definition bipartite_of (n : nat) (rs : list rxn) : bgraph :=
      (map (rx_node n) (seq 0 (length rs)))
      (arcs_from n 0 rs).
 
-(** nx.DiGraph(nx.Graph(G)) — what _as_bipartite makes of an undirected input: every edge in both
-    directions with the same data *)
+(** What _as_bipartite makes of an UNDIRECTED bipartite graph (repo a58b70a): every incidence is oriented by its
+    role — species -> reaction for a reactant, reaction -> species for a product — whichever way the undirected edge
+    happens to be stored.  (An undirected simple graph holds ONE edge per species/reaction pair, so a species on both
+    sides of a reaction is outside this input format; the harness never builds such inputs.) *)
+Definition orient_arc (rnodes : list nat) (a : arc) : arc :=
+  let src_is_rxn := existsb (Nat.eqb (a_src a)) rnodes in
+  let s := if src_is_rxn then a_dst a else a_src a in
+  let r := if src_is_rxn then a_src a else a_dst a in
+  match a_role a with
+  | Product => Arc r s (a_role a) (a_stoich a)
+  | Reactant => Arc s r (a_role a) (a_stoich a)
+  end.
 Definition flip (a : arc) : arc := Arc (a_dst a) (a_src a) (a_role a) (a_stoich a).
-Definition symmetrize (G : bgraph) : bgraph :=
-  BG (g_species G) (g_reactions G) (g_arcs G ++ map flip (g_arcs G)).
+(** the undirected view of a directed export stores each edge in an arbitrary direction (here: all reversed) *)
+Definition undirected_view (G : bgraph) : bgraph := BG (g_species G) (g_reactions G) (map flip (g_arcs G)).
+Definition orient_undirected (G : bgraph) : bgraph :=
+  BG (g_species G) (g_reactions G) (map (orient_arc (g_reactions G)) (g_arcs G)).
 
 (** _species_order: stable sort of the species nodes by label *)
 Fixpoint insert_by_label (x : nat * nat) (l : list (nat * nat)) : list (nat * nat) :=
@@ -491,7 +503,7 @@ Definition all_subsets (n : nat) : list (list nat) := flat_map (fun k => combs k
 
 Definition run_net (n : nat) (rs : list rxn) (und : bool) (k : nat) (cands : list (list nat)) : tok :=
   let G0 := bipartite_of n rs in
-  let G := if und then symmetrize G0 else G0 in
+  let G := if und then orient_undirected (undirected_view G0) else G0 in
   if split_ok G then
     let sns := species_nodes_sorted G in
     let rn := g_reactions G in
